@@ -1,6 +1,6 @@
 SPECIFICATION ASpec
 CONSTANTS
-  Labels = {"", "probe00", "a"}
+  Labels = {"", "probe00", "s"}
 INVARIANT Labelled
 INVARIANT SourceFrame
 INVARIANT TargetComplete
